@@ -283,6 +283,7 @@ func BonusToken() []byte {
 	sel(0x95d89b41, "name")
 	sel(0x40c10f19, "mint")
 	sel(BonusSetSelector, "setbonus")
+	sel(BonusLieSelector, "setlie")
 	a.Push(0).Op(opDUP1, opREVERT)
 	ret32 := func() { a.Push(0).Op(opMSTORE).Push(32).Push(0).Op(opRETURN) }
 	// slotOf: [.., holder] -> [.., keccak256(holder . 0)]
@@ -304,7 +305,13 @@ func BonusToken() []byte {
 	a.Push(2).Op(opSLOAD, opADD).Push(2).Op(opSSTORE).Push(1)
 	ret32()
 	a.Label("setbonus").Push(4).Op(CALLDATALOAD).Push(7).Op(opSSTORE, opSTOP)
-	a.Label("transfer").Push(36).Op(CALLDATALOAD).Push(7).Op(opSLOAD, opADD) // delta
+	// lie mode (slot 9): 0 = honest return value, 1 = transfer moves the tokens and returns false, 2 = transfer moves nothing
+	// and returns false (old-style tokens signal failure by their return value instead of reverting)
+	a.Label("setlie").Push(4).Op(CALLDATALOAD).Push(9).Op(opSSTORE, opSTOP)
+	a.Label("refuse").Push(0)
+	ret32()
+	a.Label("transfer").Push(9).Op(opSLOAD).Push(2).Op(EQ).PushLabel("refuse").Op(opJUMPI)
+	a.Push(36).Op(CALLDATALOAD).Push(7).Op(opSLOAD, opADD) // delta
 	a.Op(CALLER)
 	slotOf()
 	a.Op(opDUP1, opSLOAD)                              // delta cslot balc
@@ -313,7 +320,7 @@ func BonusToken() []byte {
 	a.Push(4).Op(CALLDATALOAD)
 	slotOf()
 	a.Op(opDUP1, opSLOAD, DUP3, opADD, SWAP1, opSSTORE, opPOP) // balances[to] += delta
-	a.Push(1)
+	a.Push(9).Op(opSLOAD, 0x15)                                // ISZERO(lie): true unless the token lies
 	ret32()
 	a.Label("fail").Push(0).Op(opDUP1, opREVERT)
 	return a.Bytes()
@@ -321,3 +328,6 @@ func BonusToken() []byte {
 
 // BonusSetSelector is the selector of BonusToken's setBonus(uint256).
 const BonusSetSelector = 0x0b0b0b0b
+
+// BonusLieSelector is the selector of BonusToken's setLie(uint256) (see the lie modes in BonusToken).
+const BonusLieSelector = 0x0c0c0c0c
